@@ -27,11 +27,15 @@ def parts(ctx):
     aff.strip_derive('Affiliate', 'Clone')
     cur = load('portfolio/model/currency.rs')
     cur.strip_derive('Currency', 'Clone')
+    cur.strip_derive('CurrencyAndExchangeRate', 'Clone')
     cur.ext_fn('new', why='string upper-casing')
     tx = load('portfolio/model/tx.rs')
     tx.drop_rx(r'(?m)^impl TryFrom<&str> for TxAction \{', why='(string parsing)')
     tx.ext_fn('parse', why='regex parsing of the split ratio')
     tx.strip_derive('Tx', 'Clone')
+    tx.strip_derive('BuyTxSpecifics', 'Clone')
+    tx.strip_derive('SFLInput', 'Clone')
+    tx.strip_derive('SplitRatio', 'Clone')
     txd = load('portfolio/model/txdelta.rs')
     txd.strip_derive('PortfolioSecurityStatus', 'Clone')
     ps = load('portfolio/bookkeeping/portfolio_status.rs')
